@@ -350,3 +350,86 @@ def _(run):
         return z3.Implies(z3.Not(bnone), z3.And(z3.Not(b.none), b.val.t == base) if isinstance(b, VOpt) else b.t == base)
     run.post(ex, outs, pre, {'a-sandboxed-resource-leaves-the-block-with-a-base-url-or-is-refused': rooted, 'refused-only-for-a-sandbox-without-a-derivable-root': refused_only_without_root,
                              'an-explicit-base-url-is-kept': callers_base_kept})
+
+
+# ------------------------------------------------------------------ XMLResource.iterfind on a lazy resource: one parser event
+t = Target('resources.XMLResource.iterfind.lazy_event_step', ['C06', 'C20'], FR, 'XMLResource.iterfind', anchor="if event == 'start':",
+           note='statement contract on the handling of one parser event while a path is searched in a lazy resource (L = the level of the element, counted as the loop does; '
+                'P = depth of the path, D = lazy depth, P >= D >= 1): a start event opens a level and is tracked as an ancestor exactly when L < P; the END of an element at level L '
+                'yields it exactly when L = P and the selector admits it, pops an ancestor exactly when L < P, and - for EVERY path depth - releases the subtree (XMLResource._clear, '
+                'which also resets the XPath nodes) exactly when L = D; an element deeper than the lazy depth is tested against XPath nodes rebuilt from the subtree as it is now',
+           assumes=['the selector is an uninterpreted predicate on the node; _clear and the XPath node tree are ghost counters'])
+
+
+@t.symbolic
+def _(run):
+    ex = run.exec(); st = new_state()
+    ev = z3.String('event'); level, P, D = z3.Int('level'), z3.Int('path_depth'), z3.Int('lazy_depth')
+    anc_none, sel_all, selected, xp_none = z3.Bool('ancestors_none'), z3.Bool('select_all'), z3.Bool('selector_admits_node'), z3.Bool('xpath_root_none')
+    for n in ('node', 'selector', 'anc', 'xproot', 'children'): st.objf[n] = {}
+    st.objf['xproot'] = {'children': VObj('children')}
+    st.objf['self'] = {'_xpath_root': VOpt(xp_none, VObj('xproot'))}
+    st.env.update(self=VObj('self'), event=VStr(ev), node=VObj('node'), level=VInt(level), path_depth=VInt(P), lazy_depth=VInt(D), select_all=VBool(sel_all),
+                  selector=VObj('selector'), ancestors=VOpt(anc_none, VObj('anc')))
+    st.ghost.update(appended=0, popped=0, cleared=0, reset=0, reset_before_test=None, yielded=[])
+
+    def append(e, s, r, a, k):
+        if not (isinstance(r, VObj) and r.name == 'anc' and isinstance(a[0], VObj) and a[0].name == 'node'): raise Unsupported('append')
+        s.ghost['appended'] += 1; return NONE
+    def pop(e, s, r, a, k):
+        if not (isinstance(r, VObj) and r.name == 'anc' and not a): raise Unsupported('pop')
+        s.ghost['popped'] += 1; return NONE
+    def clear(e, s, r, a, k):
+        if not (isinstance(r, VObj) and r.name == 'children'): raise Unsupported('clear')
+        s.ghost['reset'] += 1; return NONE
+    def _clear(e, s, r, a, k):
+        if not (len(a) == 2 and isinstance(a[0], VObj) and a[0].name == 'node'): raise Unsupported('_clear arguments')
+        s.ghost['cleared'] += 1; return NONE
+    ex.callees.update(append=append, pop=pop, clear=clear, _clear=_clear)
+    ex.callees['iter_select'] = lambda e, s, r, a, k: ('selection',)
+    orig_cmp = ex.cmp
+
+    def cmp(op, l, r, s):
+        if isinstance(op, ast.In) and r == ('selection',) and isinstance(l, VObj) and l.name == 'node':
+            s.ghost['reset_before_test'] = s.ghost['reset']; return selected
+        return orig_cmp(op, l, r, s)
+    ex.cmp = cmp
+    pre = z3.And(z3.Or(ev == SV('start'), ev == SV('end')), D >= 1, P >= D, level >= 0, z3.Implies(ev == SV('end'), level >= 1))
+    run.inputs.update(event=ev, level=level, path_depth=P, lazy_depth=D, select_all=sel_all, selector_admits_node=selected)
+    outs = ex.run(st, pre)
+
+    def post(kind, v, s):
+        if kind not in ('fall', 'continue'): return z3.BoolVal(False)
+        g = s.ghost; ny = len(g['yielded']); yielded_node = ny == 1 and isinstance(g['yielded'][0], VObj) and g['yielded'][0].name == 'node'
+        L = level - 1        # the level of the element that ends
+        start = z3.And(z3.BoolVal(ny == 0 and g['popped'] == 0 and g['cleared'] == 0), s.env['level'].t == level + 1,
+                       z3.BoolVal(g['appended'] == 1) == z3.And(z3.Not(anc_none), level < P), z3.BoolVal(g['appended'] <= 1))
+        end = z3.And(s.env['level'].t == L, z3.BoolVal(g['appended'] == 0),
+                     z3.BoolVal(g['popped'] == 1) == z3.And(z3.Not(anc_none), L < P), z3.BoolVal(g['popped'] <= 1),
+                     z3.BoolVal(yielded_node) == z3.And(L == P, z3.Or(sel_all, selected)), z3.BoolVal(ny == 0 or yielded_node),
+                     z3.BoolVal(g['cleared'] == 1) == (L == D), z3.BoolVal(g['cleared'] <= 1))
+        return z3.If(ev == SV('start'), start, end)
+
+    def fresh_nodes(kind, v, s):
+        # when the selector is consulted for an element below the lazy depth and XPath nodes exist, they were reset just before
+        if kind not in ('fall', 'continue') or s.ghost['reset_before_test'] is None: return z3.BoolVal(True)
+        return z3.Implies(z3.And(ev == SV('end'), level - 1 > D, z3.Not(xp_none)), z3.BoolVal(s.ghost['reset_before_test'] >= 1))
+    run.post(ex, outs, pre, {'one-event-tracks-yields-and-releases-by-level': post, 'deeper-elements-are-tested-against-rebuilt-xpath-nodes': fresh_nodes})
+
+
+@t.concrete
+def _(inp):
+    import xmlschema
+    n = inp['items']; doc = '<root>' + ''.join(f'<item><sub>{i}</sub><sub>{i}</sub></item>' for i in range(n)) + '</root>'
+    want = [e.text for e in xmlschema.XMLResource(doc).iterfind(inp['path'])]
+    got = [e.text for e in xmlschema.XMLResource(doc, lazy=inp['lazy'], thin_lazy=inp['thin']).iterfind(inp['path'])]
+    return dict(ok=got == want, observed=len(got), required=len(want))
+
+
+@t.scope
+def _(tier, rng):
+    for n in (3, 520):       # 520 items: the text spans more than one read block of the parser (16 KiB)
+        for path in ('/root/item', '/root/item/sub', '/root/item/*', '/root/*/sub'):
+            for lazy in (1, 2):
+                for thin in (True, False):
+                    if path.count('/') - 1 >= lazy: yield dict(items=n, path=path, lazy=lazy, thin=thin)
